@@ -23,7 +23,9 @@ Spell ==
     \* custom method
     method_p    |-> << "method($V)", "method = $V", "method = \"$S\"", "method(\"$S\")" >>,
     \* explicit rank (negative values included)
-    rank_p      |-> << "rank = $V", "rank($V)", "rank = \"$S\"", "rank(\"$S\")" >>,
+    \* ($X: the value as a hexadecimal literal, $U: with a digit separator and a type suffix -- other ways to write the
+    \*  same integer literal)
+    rank_p      |-> << "rank = $V", "rank($V)", "rank = \"$S\"", "rank(\"$S\")", "rank = $X", "rank($X)", "rank = $U", "rank($U)" >>,
     \* Debug name of a type / variant: custom, off, on
     name_p      |-> << "name = $V", "name($V)", "name = \"$S\"", "name(\"$S\")",
                        "rename = $V", "rename($V)", "rename = \"$S\"", "rename(\"$S\")" >>,
